@@ -60,8 +60,13 @@ case "${1:-}" in
     # thorough tier: coverage-guided campaign with the property's oracle in the target
     if [ $CODE -eq 0 ] && [ "$TIER" = thorough ] && [ -z "${NFV_REPO:-}" ]; then
       case "$ID" in
-        C01|C02|C03|C08|C15)
+        C02|C03|C08|C15)
           /verif/tools/fuzz_phase.sh "$ID" "${NFV_FUZZ_RUNS:-3000000}" 16 fuzz_history
+          CODE=$?
+          ;;
+        C01)
+          # (every execution runs on a fresh 2 MiB thread: about 500 executions/s per worker)
+          /verif/tools/fuzz_phase.sh "$ID" "${NFV_FUZZ_RUNS:-1000000}" 16 fuzz_history
           CODE=$?
           ;;
         C12)
